@@ -203,11 +203,16 @@ Definition validate_data_eligibility (g : cfg) (o : N) (ob : eobs) : bool :=
   validate_eligibility g o (e_tokens ob) &&
   (reads g o (c_dest g) || (is_nil (nonempty_keys (e_nonces ob)) && N.eqb (e_costly ob) 0)).
 
+(* validateObservedChains (repair of F13d): every key of CommitReports, Messages and TokenData — empty inner maps
+   included — must be a chain with a configured F on the home chain *)
+Definition chains_known (g : cfg) (ob : eobs) : bool :=
+  forallb (fun c => memN c (home_chains g)) (map fst (e_commit ob) ++ map fst (e_msgs ob) ++ map fst (e_tokens ob)).
+
 (* execute.Plugin.ValidateObservation (observation decodable): eligibility of messages and of the other chain data,
-   sequence numbers, validateMessageKeys, and the discovery validator wired in (repair of F04) *)
+   sequence numbers, validateMessageKeys, validateObservedChains, and the discovery validator wired in (repair of F04) *)
 Definition validate_exec (g : cfg) (o : N) (ob : eobs) : bool :=
   known_oracle g o && validate_eligibility g o (e_msgs ob) && validate_data_eligibility g o ob &&
-  seqnums_ok (e_commit ob) && e_keys_ok ob && validate_discovery g o (e_d ob).
+  seqnums_ok (e_commit ob) && e_keys_ok ob && validate_discovery g o (e_d ob) && chains_known g ob.
 (* as it was before the repairs of F04 and F07 *)
 Definition validate_exec_unfixed (g : cfg) (o : N) (ob : eobs) : bool :=
   known_oracle g o && validate_eligibility g o (e_msgs ob) && seqnums_ok (e_commit ob) && e_keys_ok ob.
@@ -443,7 +448,9 @@ Definition observe_commit_reports_with (lookup : bool) (g : cfg) (i : N) (st : r
   else if rs_fail st K_REPORTS (c_dest g) then Err
   else if lookup && negb (forallb (fun p => reads g i (fst p)) (rs_reports st)) then Err
   else if existsb (fun p => rs_fail st K_EXECUTED (fst p)) (rs_reports st) then Err
-  else Ok (mkEobs (filter (fun p => negb (memN (fst p) (rs_cursed st))) (rs_reports st)) [] true [] 0 [] d).
+  (* only the known (home-chain configured), non-cursed source chains are kept *)
+  else Ok (mkEobs (filter (fun p => memN (fst p) (sources g) && negb (memN (fst p) (rs_cursed st))) (rs_reports st))
+                  [] true [] 0 [] d).
 
 (* readAllMessages after the repair of F18b: source chains without a reader are skipped *)
 Definition read_all_messages (g : cfg) (i : N) (st : rstate) : res (list (N * N)) :=
@@ -517,6 +524,10 @@ Definition values_ok (st : rstate) : bool :=
   forallb (fun p => Z.ltb 0 (snd p)) (rs_native st) &&
   seqnums_ok (rs_reports st) && seqnums_ok (rs_pending st).
 Definition no_failures (st : rstate) : Prop := forall k c, rs_fail st k c = false.
+(* stable home configuration: the previous outcome's pending reports name configured chains only (the merges that
+   produced it need an F for every chain they keep, so this holds as long as the home-chain config did not shrink) *)
+Definition pending_known (g : cfg) (st : rstate) : bool :=
+  forallb (fun p => memN (fst p) (home_chains g)) (rs_pending st).
 
 (* input classes of the repaired findings F18c / F18d (used by the refutations of the pre-repair functions) *)
 (* F18c: GetMessages phase, something pending, oracle without destination access *)
